@@ -313,7 +313,7 @@ pub fn resolve(p: &Program) -> Resolved {
         n.min(budget)
     };
 
-    let mut do_start = |res: &mut Resolved, f: usize, pos: &mut usize, current: &mut usize, names: &Vec<String>| {
+    let do_start = |res: &mut Resolved, f: usize, pos: &mut usize, current: &mut usize, names: &Vec<String>| {
         res.offsets[f].push(*pos as u64);
         res.blocks.push(BlockRec { off: *pos, kind: BlockKind::Start, f, len: names[f].len(), file_off: 0 });
         *pos += 17 + names[f].len();
